@@ -443,6 +443,8 @@ impl LockFreeMemoryPool {
             // ABA-SAFE: Load packed value (offset + generation)
             let packed = bin.head.load(Ordering::Acquire);
             let (current_offset, current_gen) = Self::unpack_head(packed);
+            #[cfg(zipora_verif)]
+            crate::verif_hooks::yield_point(200);
 
             if current_offset == LIST_TAIL {
                 // Empty bin, need to allocate new memory
@@ -454,6 +456,8 @@ impl LockFreeMemoryPool {
                 let current_ptr = self.offset_to_ptr(current_offset)?;
                 *(current_ptr.as_ptr() as *const u32)
             };
+            #[cfg(zipora_verif)]
+            crate::verif_hooks::yield_point(201);
 
             // ABA-SAFE: Pack next offset with INCREMENTED generation counter
             // This prevents ABA: even if offset A→B→A, generation won't match
@@ -471,6 +475,8 @@ impl LockFreeMemoryPool {
                     // SAFETY FIX (v2.1.1): Use Release ordering to synchronize with head update
                     // This ensures the count decrement is visible to other threads that observe
                     // the new head value, preventing race conditions in high-contention scenarios
+                    #[cfg(zipora_verif)]
+                    crate::verif_hooks::yield_point(202);
                     bin.count.fetch_sub(1, Ordering::Release);
 
                     if let Some(stats) = &self.stats {
@@ -486,6 +492,8 @@ impl LockFreeMemoryPool {
                         stats.cas_failures.fetch_add(1, Ordering::Relaxed);
                     }
                     
+                    #[cfg(zipora_verif)]
+                    crate::verif_hooks::yield_point(203);
                     self.backoff(retry);
                 }
             }
@@ -509,9 +517,13 @@ impl LockFreeMemoryPool {
 
             // Store current OFFSET (not packed value) as next pointer in the block
             // The next pointer only needs the offset, not the generation counter
+            #[cfg(zipora_verif)]
+            crate::verif_hooks::yield_point(210);
             unsafe {
                 *(ptr.as_ptr() as *mut u32) = current_offset;
             }
+            #[cfg(zipora_verif)]
+            crate::verif_hooks::yield_point(211);
 
             // ABA-SAFE: Pack new offset with INCREMENTED generation counter
             let new_packed = Self::pack_head(offset, current_gen.wrapping_add(1));
@@ -525,6 +537,8 @@ impl LockFreeMemoryPool {
             ) {
                 Ok(_) => {
                     // Success! Update count
+                    #[cfg(zipora_verif)]
+                    crate::verif_hooks::yield_point(212);
                     bin.count.fetch_add(1, Ordering::Relaxed);
 
                     if let Some(stats) = &self.stats {
@@ -540,6 +554,8 @@ impl LockFreeMemoryPool {
                         stats.cas_failures.fetch_add(1, Ordering::Relaxed);
                     }
                     
+                    #[cfg(zipora_verif)]
+                    crate::verif_hooks::yield_point(203);
                     self.backoff(retry);
                 }
             }
@@ -571,6 +587,8 @@ impl LockFreeMemoryPool {
         // Always allocate from backing memory to ensure consistent pointer validation
         // External cache allocations would cause pointer validation failures in deallocate
         let offset = self.next_offset.fetch_add(aligned_size as u32, Ordering::Relaxed);
+        #[cfg(zipora_verif)]
+        crate::verif_hooks::yield_point(220);
         
         if offset as usize + aligned_size > self.config.memory_size {
             return Err(ZiporaError::out_of_memory(aligned_size));
